@@ -8,7 +8,7 @@ from . import extract
 
 
 class ModularMixin:
-    def call_modular(self, fi, C, args, kwargs, node):
+    def call_modular(self, fi, C, args, kwargs, node, decreases=False):
         loc = self.bind_args(fi, args, kwargs, node)
         frame = Frame(None, dict(loc), fi.module)
         self.frames.append(frame)
@@ -19,13 +19,18 @@ class ModularMixin:
                 frame.locals[g] = self.sym_value(d, g)
             for name, expr in C.let.items():
                 frame.locals[name] = self.spec_eval(ast.parse(expr, mode='eval').body)
+            if decreases:
+                m = zint(self.int_of(self.spec_eval(ast.parse(C.decreases, mode='eval').body)))
+                goal = z3.And(m >= 0, m < zint(self.entry_measure))
+                self.callsite_obligations.append(('decreases@%s:%s' % (fi.name, getattr(node, 'lineno', '?')), goal,
+                                                  '0 <= (%s) < its value on entry' % C.decreases, C.props))
             for cl in C.requires:
                 goal = self.spec_bool(cl.ast)
                 self.callsite_obligations.append(
                     ('%s@%s:%s' % (cl.label, fi.name, getattr(node, 'lineno', '?')), goal, cl.expr, cl.props or C.props))
             self.old_heap = self.heap.snapshot()
             self.old_locals = dict(frame.locals)
-            self.old_ghost = {'g_enc': self.g_enc, 'g_dec': self.g_dec}
+            self.old_ghost = {'g_enc': self.g_enc, 'g_dec': self.g_dec, 'g_nframes': self.g_nframes, 'g_ngoaway': self.g_ngoaway}
             for target in (C.modifies or []):
                 if callable(target):
                     target(self, frame.locals)      # functional summary (a restatement of proved ensures clauses)
@@ -40,7 +45,8 @@ class ModularMixin:
                 alts.append(rc)
                 if rc.iff:
                     normal_cond = zand(normal_cond, znot(w))
-            i = self.choose([normal_cond] + conds, 'modular:%s' % fi.name, names=['return'] + [rc.label for rc in alts])
+            # the outcomes of a contract are alternatives, not an if/elif chain: every enabled one is explored
+            i = self.choose([normal_cond] + conds, 'modular:%s' % fi.name, names=['return'] + [rc.label for rc in alts], exclusive=False)
             if i == 0:
                 if callable(C.result):
                     result = C.result(self, frame.locals)
@@ -52,10 +58,14 @@ class ModularMixin:
                 for g, expr in C.ghost_update.items():
                     frame.locals[g] = self.spec_eval(ast.parse(expr, mode='eval').body)
                 for cl in C.ensures:
+                    if C.assume_only is not None and cl.label not in C.assume_only:
+                        continue
                     f = self.spec_bool(cl.ast)
                     if cl.when_ast is not None:
                         f = z3.Implies(self.spec_bool(ast.Call(func=ast.Name(id='old', ctx=ast.Load()), args=[cl.when_ast], keywords=[])), f)
                     self.assume_spec(f)
+                if self.check() == z3.unsat:
+                    raise Abort()           # this outcome is not enabled in the call state
                 return result
             rc = alts[i - 1]
             exc = self.make_exception(rc.exc, node)
@@ -90,6 +100,13 @@ class ModularMixin:
             self.setattr(recv, attr, self.sym_value(desc, 'havoc_' + attr))
             return
         kind, _, rest = target.partition(':')
+        if kind == 'ghost':
+            # ghost:g_nframes | ghost:g_ngoaway | ghost:g_enc | ghost:g_dec (fresh value) ; ghost:g_out (forgets the list)
+            if rest == 'g_out':
+                self.g_out = self.heap.alloc(ListObj([]))
+            else:
+                setattr(self, rest, self.fresh('havoc_' + rest, 'int'))
+            return
         if kind == 'field':
             expr, _, desc = rest.rpartition(':')
             base, _, attr = expr.rpartition('.')
